@@ -224,7 +224,7 @@ def unsignedToken (n : Nat) (suffix : String) : Option String :=
   else if suffix = "i16" ∧ n ≤ 32767 then some s!"SignedNum({n}, I16)"
   else if suffix = "i32" ∧ n ≤ 2147483647 then some s!"SignedNum({n}, I32)"
   else if suffix = "i64" ∧ n ≤ 9223372036854775807 then some s!"SignedNum({n}, I64)"
-  else if suffix = "usize" then some s!"UnsignedNum({n}, Usize)"
+  else if suffix = "usize" ∧ n ≤ 4294967295 then some s!"UnsignedNum({n}, Usize)"
   else if suffix = "u8" ∧ n ≤ 255 then some s!"UnsignedNum({n}, U8)"
   else if suffix = "u16" ∧ n ≤ 65535 then some s!"UnsignedNum({n}, U16)"
   else if suffix = "u32" ∧ n ≤ 4294967295 then some s!"UnsignedNum({n}, U32)"
